@@ -179,28 +179,22 @@ open Asn1c.Impl.Integer Asn1c.Spec Asn1c.Proofs.Integer
 
 /-! ### INTEGER_oer.c -/
 
-/-- C04 (guarded, F5): the only way `INTEGER_decode_oer` reads outside its input is the `msb` probe of an
-    unsigned (`positive`) variable-size integer whose length determinant says 0 and ends the data -/
-theorem intDecodeOer_oob_iff (width : Nat) (positive : Bool) (buf : Bytes) :
-    intDecodeOer width positive buf = .oob ↔
-      (positive = true ∧ width = 0 ∧ fetchLength buf = .ok 0 buf.length) := by
+/-- C04: `INTEGER_decode_oer` never reads outside its input (finding F5 repaired: a zero length determinant of a
+    variable-size integer is rejected before the `msb` probe) -/
+theorem intDecodeOer_no_oob (width : Nat) (positive : Bool) (buf : Bytes) :
+    intDecodeOer width positive buf ≠ .oob := by
   unfold intDecodeOer
   simp only
   by_cases hw : width ≠ 0
   · rw [if_pos hw]
-    constructor
-    · intro h
-      split at h
+    intro h
+    split at h
+    · cases h
+    · split at h
+      · rw [List.getElem?_eq_getElem (by omega)] at h
+        cases h
       · cases h
-      · split at h
-        · rename_i h1 h2
-          have hlt : 0 < buf.length := by omega
-          rw [List.getElem?_eq_getElem (by omega)] at h
-          cases h
-        · cases h
-    · intro h; omega
   · rw [if_neg hw]
-    have hw0 : width = 0 := by omega
     cases hf : fetchLength buf with
     | more => simp
     | fail => simp
@@ -208,28 +202,18 @@ theorem intDecodeOer_oob_iff (width : Nat) (positive : Bool) (buf : Bytes) :
     | ok len used =>
       simp only
       obtain ⟨hu1, hu2⟩ := fetchLength_used_le buf len used hf
-      constructor
-      · intro h
-        split at h
+      intro h
+      split at h
+      · cases h
+      · split at h
         · cases h
         · split at h
-          · rename_i h1 h2
-            by_cases hlt : used < buf.length
-            · rw [List.getElem?_eq_getElem hlt] at h; cases h
-            · have : used = buf.length := by omega
-              have : len = 0 := by omega
-              subst this
-              exact ⟨h2, hw0, by rw [‹used = buf.length›]⟩
+          · rw [List.getElem?_eq_getElem (by omega)] at h
+            cases h
           · cases h
-      · intro ⟨hp, _, he⟩
-        simp only [LenRes.ok.injEq] at he
-        obtain ⟨h1, h2⟩ := he
-        subst h1 h2
-        rw [if_neg (by omega), if_pos hp]
-        rw [List.getElem?_eq_none (by omega)]
 
-/-- F5 witness: `INTEGER (0..MAX)`, OER input `00` -/
-theorem intDecodeOer_F5_cex : intDecodeOer 0 true [0x00] = .oob := by decide
+/-- the former F5 witness (`INTEGER (0..MAX)`, OER input `00`) is now rejected -/
+theorem intDecodeOer_zero_length_fails : intDecodeOer 0 true [0x00] = .fail := by decide
 
 
 theorem twosVal_cons_ff (c : Nat) (cs : Bytes) (h : c ≥ 128) : twosVal (255 :: c :: cs) = twosVal (c :: cs) := by
@@ -450,7 +434,11 @@ theorem intDecodeOer_var (positive : Bool) (body rest : Bytes) (hne : body ≠ [
   unfold intDecodeOer oerContent
   simp only
   rw [if_neg (by omega), List.append_assoc, fetchLength_serialize _ _ hl]
-  simp only
+  have hl0 : ¬ body.length = 0 := by
+    cases body with
+    | nil => exact absurd rfl hne
+    | cons _ _ => simp
+  simp only [if_neg hl0]
   rw [if_neg (by simp only [List.length_append]; omega)]
   have hd : (serializeLength body.length ++ (body ++ rest)).drop (serializeLength body.length).length = body ++ rest := by
     rw [List.drop_left']; rfl
